@@ -6,6 +6,9 @@
 -/
 import YashModel.Fnmatch.ErrorLemmas
 import YashModel.Fnmatch.TableLemmas
+import YashModel.Fnmatch.WordLemmas
+import YashModel.Fnmatch.DecisionLemmas
+import YashModel.Generated.FnmatchDecisions
 
 namespace YashModel.Fnmatch
 open YashModel.Generated.FnmatchTables
@@ -773,5 +776,161 @@ example :
     [Pattern.fromAst [.bracket ⟨false, [.range (.char 'z') (.char 'a')]⟩] caseConfig,
      Pattern.fromAst [.bracket ⟨true, [.atom (.collating ['c', 'h']), .range (.char 'b') (.char 'a')]⟩] caseConfig].map
       (fun r => match r with | .error e => some e | .ok _ => none) = [some .regex, some .regex] := by decide
+
+/-! ## ★ wave 3: pattern WORDS — every quoting mechanism of the shell -/
+
+/-- ★ `to_pattern_chars` after `apply_escapes`, for EVERY sequence of attributed characters in which no unquoted
+    backslash stands directly before a quoting character: the result is what XCU 2.13.1 says about the sequence after
+    quote removal — a QUOTING character contributes nothing (also one that is quoted at the same time: the backslash of
+    `"\$"`, the inner quotes of `"${x+"a"}"`), a quoted character is `Literal` whatever it is, an unquoted one keeps its
+    meaning, an unquoted backslash quotes its successor.  So no more pattern characters come out than non-quoting
+    characters went in.  (Seeded change round 7: "quoted wins over quoting" emits the backslash of `"\$"`.) -/
+theorem attr_pattern_chars (cs : List AttrChar) (h : noEscapedMark cs = true) :
+    toPatternChars (applyEscapes cs) = escapeMarked (attrMarks cs) ∧
+    (toPatternChars (applyEscapes cs)).length ≤ (cs.filter fun c => !c.isQuoting).length := by
+  have e := toPatternChars_applyEscapes cs h
+  refine ⟨e, ?_⟩
+  rw [e]
+  have hl : ∀ ms : List (Char × Bool), (escapeMarked ms).length ≤ ms.length := by
+    intro ms
+    induction ms using escapeMarked.induct with
+    | case1 => simp [escapeMarked]
+    | case2 m => simp [escapeMarked]
+    | case3 m d t hc ih => rw [escapeMarked, if_pos hc]; simp only [List.length_cons]; omega
+    | case4 m d t hc ih => rw [escapeMarked, if_neg hc]; simp only [List.length_cons] at ih ⊢; omega
+  have := hl (attrMarks cs)
+  simpa [attrMarks] using this
+
+/-- non-vacuity, and the two characters that are quoting AND quoted: `"\$"` is the one literal `$`; in `"${1+"a"}"`
+    the inner quotes vanish -/
+example :
+    let w1 : PWord := .cons (.dq (.cons (.bs '$') .nil)) .nil
+    let w2 : PWord := .cons (.dq (.cons (.alt (.cons (.dq (.cons (.lit 'a') .nil)) .nil)) .nil)) .nil
+    (wordAttrs w1).map (fun c => (c.isQuoted, c.isQuoting)) = [(false, true), (true, true), (true, false), (false, true)] ∧
+    noEscapedMark (wordAttrs w1) = true ∧ patternOfWord w1 = [.literal '$'] ∧
+    noEscapedMark (wordAttrs w2) = true ∧ patternOfWord w2 = [.literal 'a'] := by decide
+
+/-- ★ The pattern characters of a pattern WORD — unquoted text, `\c`, `'…'`, `"…"` with `\c` and parameters inside,
+    `${N+word}` nested either way — are the Spec's: quote removal on what the expansion yields gives exactly the
+    characters the word denotes, each marked quoted iff some quoting mechanism of the word covers it (`PWord.marks`, a
+    recursion on the word with one flag); then XCU 2.13.1.  The hypothesis is decidable and checked per case by the
+    driver; it holds for every word none of whose UNQUOTED parameter values contains a backslash — then no backslash
+    rule is left at all and the pattern is the marked characters one for one. -/
+theorem word_pattern_chars (w : PWord) :
+    attrMarks (wordAttrs w) = w.marks false ∧
+    (noEscapedMark (wordAttrs w) = true → patternOfWord w = specWordChars w) ∧
+    ((w.marks false).all (fun m => !rawBackslash m) = true →
+      noEscapedMark (wordAttrs w) = true ∧ patternOfWord w = (w.marks false).map markChar) := by
+  have hm := attrMarks_wordAttrs w
+  have h1 : noEscapedMark (wordAttrs w) = true → patternOfWord w = specWordChars w := by
+    intro h
+    unfold patternOfWord specWordChars
+    rw [toPatternChars_applyEscapes _ h, hm]
+  refine ⟨hm, h1, ?_⟩
+  intro hr
+  have hn := noEscapedMark_of_marks (wordAttrs w) (by rw [hm]; exact hr)
+  exact ⟨hn, by rw [h1 hn]; exact escapeMarked_no_raw _ hr⟩
+
+/-- non-vacuity: `\*"a"$p` with `p` = `?` — literal `*`, literal `a`, and the `?` of the value keeps its meaning;
+    and a word outside the hypothesis: `$p""x` with `p` = `\` -/
+example :
+    let w : PWord := .cons (.unq (.bs '*')) (.cons (.dq (.cons (.lit 'a') .nil)) (.cons (.unq (.param ['?'])) .nil))
+    (w.marks false).all (fun m => !rawBackslash m) = true ∧
+    patternOfWord w = [.literal '*', .literal 'a', .normal '?'] ∧
+    noEscapedMark (wordAttrs (.cons (.unq (.param ['\\'])) (.cons (.dq .nil) (.cons (.unq (.lit 'x')) .nil)))) = false := by
+  decide
+
+/-- ★ "quoted or backslash-escaped characters match only themselves", for every quoting mechanism: a word all of whose
+    characters are covered by some quoting (`"\$"`, `'*'`, `\[`, `"$v"`, `"${1+"a"}"`, any concatenation) is the
+    literal string it denotes after quote removal — as a `case` pattern it matches exactly that subject, as a trim
+    pattern it removes exactly that prefix / suffix. -/
+theorem quoted_word_only_itself (w : PWord) (h : ∀ m ∈ w.marks false, m.2 = true) :
+    patternOfWord w = (wordValue w).map .literal ∧
+    (∀ subj, itemMatches subj [patternOfWord w] = decide (subj = wordValue w)) ∧
+    (∀ side len v, trimApplyValue side len (wordAttrs w) (.scalar v) =
+      .scalar (specTrim side len ((wordValue w).map Atom.char) v)) := by
+  have hr : (w.marks false).all (fun m => !rawBackslash m) = true := by
+    rw [List.all_eq_true]; intro m hm; simp [rawBackslash, h m hm]
+  have e : patternOfWord w = (wordValue w).map .literal := by
+    rw [((word_pattern_chars w).2.2 hr).2, markChar_quoted _ h]; rfl
+  refine ⟨e, ?_, ?_⟩
+  · intro subj
+    rw [e]
+    obtain ⟨pat, hp, hm⟩ := (literal_is_literal (wordValue w) caseConfig rfl rfl).2
+    simp only [itemMatches, hp, hm subj]
+    cases decide (subj = wordValue w) <;> rfl
+  · intro side len v
+    have hpa := Proofs.parseAtoms_literals (wordValue w)
+    have hd : astDefined (parseAtoms ((wordValue w).map PatternChar.literal)) = true := by
+      rw [hpa]; simp [astDefined, atomOk]
+    have hn : noMulti (parseAtoms ((wordValue w).map PatternChar.literal)) = true := by
+      rw [hpa]; simp [noMulti, noMultiAtom]
+    rw [(Proofs.trimApplyValue_eq side len (wordAttrs w)).1 v]
+    show Value.scalar (trimApply side len (patternOfWord w) v) = _
+    rw [e, trimApply_correct _ hd hn side len v, hpa]
+
+/-- non-vacuity: `"\$"'*'` is covered, denotes `$*` -/
+example :
+    let w : PWord := .cons (.dq (.cons (.bs '$') .nil)) (.cons (.sq ['*']) .nil)
+    (∀ m ∈ w.marks false, m.2 = true) ∧ wordValue w = ['$', '*'] := by decide
+
+/-- ★ The three small decisions of yash-semantics the model transcribes, re-derived from the source on every run by
+    EVALUATING the Rust expression on every combination of the flags it reads (`tools/tables/fnmatch.py`
+    `fnmatch_decisions`; an if-chain, a `match` on a tuple, reordered or nested forms read the same, anything else is
+    refused): (1) `to_pattern_chars` on one character — quoting ↦ nothing (also when quoted), quoted ↦ `Literal`,
+    otherwise `Normal` — is `toPatternChars`; (2) the body of the `apply_escapes` loop runs exactly for a backslash that
+    is neither quoting nor quoted, and sets `is_quoting` on it and `is_quoted` on its successor — `applyEscapes` on two
+    characters; (3) `trim_value` searches with `rfind` exactly under `anchor_end ∧ shortest_match`, for all sixteen
+    combinations of the modelled flags, as `trimValue` does.  (Seeded change round 7 alters table (1): this theorem
+    then fails before any case runs.) -/
+theorem decision_tables_agree :
+    (∀ (v : Char) (q g : Bool),
+      Generated.FnmatchDecisions.patternCharTable.lookup (q, g) =
+        some (match toPatternChars [⟨v, q, g⟩] with
+              | [] => "None" | [.literal _] => "Literal" | [.normal _] => "Normal" | _ => "?")) ∧
+    (∀ (a b : AttrChar),
+      applyEscapes [a, b] =
+        if (a.value == '\\', a.isQuoting, a.isQuoted) ∈ Generated.FnmatchDecisions.escapeWhen
+        then [{ a with isQuoting := true }, { b with isQuoted := true }] else [a, b]) ∧
+    Generated.FnmatchDecisions.escapeEffects = ["chars[i].is_quoting=true", "chars[j].is_quoted=true"] ∧
+    (Generated.FnmatchDecisions.trimValueSearch.length = 16 ∧ (Generated.FnmatchDecisions.trimValueSearch.map (·.1)).Nodup ∧
+      ∀ row ∈ Generated.FnmatchDecisions.trimValueSearch, (∀ f ∈ row.1, f ∈ modelledFlags) ∧
+        (if (cfgOfFlags row.1).anchorEnd && (cfgOfFlags row.1).shortest then "rfind" else "find") = row.2) := by
+  refine ⟨?_, ?_, by decide, by decide, by decide, by decide⟩
+  · intro v q g
+    cases q <;> cases g <;> simp [toPatternChars] <;> decide
+  · intro a b
+    rcases a with ⟨av, aq, ag⟩
+    rcases b with ⟨bv, bq, bg⟩
+    by_cases hv : av = '\\' <;> cases aq <;> cases ag <;>
+      simp [applyEscapes, applyEscapesAux, Generated.FnmatchDecisions.escapeWhen, hv]
+
+/-- ★ lib.rs, re-derived on every run by evaluating the source: on the literal fast path `is_match` / `find` / `rfind`
+    apply, for each of the four anchorings, the `str` operation the model applies (`contains` / `find` / `rfind` without
+    anchor, `starts_with`, `ends_with`, `==`); on the regex path `is_match` and `find` start at index 1 exactly when
+    `literal_period` is set, the pattern does not start with a literal period and the text does (`Pattern.at0`). -/
+theorem literal_path_tables_agree :
+    (∀ (cfg : Config) (s text : List Char),
+      (∃ op, Generated.FnmatchDecisions.literalArms.lookup ("is_match", cfg.anchorBegin, cfg.anchorEnd) = some op ∧
+        strOpMatch op s text = some ((⟨.literal s, cfg⟩ : Pattern).isMatch text)) ∧
+      (∃ op, Generated.FnmatchDecisions.literalArms.lookup ("find", cfg.anchorBegin, cfg.anchorEnd) = some op ∧
+        strOpFind op s text = some ((⟨.literal s, cfg⟩ : Pattern).find text)) ∧
+      (∃ op, Generated.FnmatchDecisions.literalArms.lookup ("rfind", cfg.anchorBegin, cfg.anchorEnd) = some op ∧
+        strOpFind op s text = some ((⟨.literal s, cfg⟩ : Pattern).rfind text))) ∧
+    (∀ fn ∈ ["is_match", "find"], ∃ l, Generated.FnmatchDecisions.rejectInitialDotWhen.lookup fn = some l ∧
+      ∀ (cfg : Config) (dot : Bool) (text : List Char),
+        Pattern.at0 cfg dot text = if (cfg.literalPeriod, dot, text.head? == some '.') ∈ l then 1 else 0) := by
+  constructor
+  · intro cfg s text
+    rcases cfg with ⟨ab, ae, lp, sh⟩
+    cases ab <;> cases ae <;>
+      exact ⟨⟨_, rfl, rfl⟩, ⟨_, rfl, rfl⟩, ⟨_, rfl, rfl⟩⟩
+  · intro fn hfn
+    simp only [List.mem_cons, List.not_mem_nil, or_false] at hfn
+    rcases hfn with rfl | rfl <;>
+    · refine ⟨_, rfl, ?_⟩
+      intro cfg dot text
+      rcases cfg with ⟨ab, ae, lp, sh⟩
+      cases lp <;> cases dot <;> cases h : (text.head? == some '.') <;> simp [Pattern.at0, h]
 
 end YashModel.Fnmatch
